@@ -8,6 +8,7 @@ package main
 
 import (
 	"errors"
+	"runtime"
 	"strings"
 	"sync"
 	"time"
@@ -35,11 +36,41 @@ type ctlDS struct {
 	cond    *sync.Cond
 	closed  bool   // gate
 	waiting int    // writers held at the gate
-	armed   wclass // fail the next write of this class
+	armedQ  []wclass // fail the next write of the first class, then of the second, ... (one failure per publish attempt)
 	fired   []byte
+	// localOnly: gate, failures and attempts concern the writes of a local publish (addDAGNode) only;
+	// writes of remote merges (DAG workers, bitswap) pass and are counted in remoteHeads
+	localOnly   bool
+	remoteHeads int
+	// every local publish attempt (its DAG node write): what onAttempt returned, and how it ended
+	onAttempt func() int
+	attempts  []attempt
+	onBlock   func(key string, val []byte, local bool)
+	onHeadPut func(key string, local bool)
 	writes  int
 	lastW   time.Time
 	inPub   bool // a publish has started writing and has not reached its heads write (or failed)
+}
+
+type attempt struct {
+	taken int
+	out   byte // 'o' or the class of the write that failed
+}
+
+// isLocalPublish: is the calling goroutine inside go-ds-crdt's addDAGNode (publish of a local delta)?
+func isLocalPublish() bool {
+	pc := make([]uintptr, 96)
+	n := runtime.Callers(2, pc)
+	fr := runtime.CallersFrames(pc[:n])
+	for {
+		f, more := fr.Next()
+		if strings.HasSuffix(f.Function, "go-ds-crdt.(*Datastore).addDAGNode") {
+			return true
+		}
+		if !more {
+			return false
+		}
+	}
 }
 
 func newCtlDS(inner ds.Datastore, ns string) *ctlDS {
@@ -70,6 +101,28 @@ func (d *ctlDS) before(keys []string) (wclass, error) {
 	if cl == clNone {
 		return cl, nil
 	}
+	if d.localOnly && !isLocalPublish() {
+		d.mu.Lock()
+		d.lastW = time.Now()
+		if cl == clHeads {
+			d.remoteHeads++
+		}
+		d.mu.Unlock()
+		return clNone, nil
+	}
+	if d.onAttempt != nil {
+		// a publish attempt starts with its first write (the DAG node, unless an identical node is
+		// already stored: the retry of an unchanged batch); only the worker goroutine publishes
+		d.mu.Lock()
+		starts := !d.inPub
+		d.mu.Unlock()
+		if starts {
+			t := d.onAttempt() // outside d.mu: the callback takes the harness's submission lock
+			d.mu.Lock()
+			d.attempts = append(d.attempts, attempt{taken: t, out: 'o'})
+			d.mu.Unlock()
+		}
+	}
 	d.mu.Lock()
 	defer d.mu.Unlock()
 	for d.closed {
@@ -81,10 +134,13 @@ func (d *ctlDS) before(keys []string) (wclass, error) {
 	d.writes++
 	d.lastW = time.Now()
 	d.inPub = true
-	if d.armed != clNone && d.armed == cl {
-		d.armed = clNone
+	if len(d.armedQ) > 0 && d.armedQ[0] == cl {
+		d.armedQ = d.armedQ[1:]
 		d.fired = append(d.fired, byte(cl))
 		d.inPub = false
+		if n := len(d.attempts); n > 0 {
+			d.attempts[n-1].out = byte(cl)
+		}
 		return cl, errInjected
 	}
 	return cl, nil
@@ -101,11 +157,17 @@ func (d *ctlDS) after(cl wclass) {
 }
 
 func (d *ctlDS) Put(k ds.Key, v []byte) error {
+	if d.onBlock != nil && d.classify([]string{k.String()}) == clBlock {
+		d.onBlock(k.String(), v, isLocalPublish())
+	}
 	cl, err := d.before([]string{k.String()})
 	if err != nil {
 		return err
 	}
 	defer d.after(cl)
+	if d.onHeadPut != nil && d.classify([]string{k.String()}) == clHeads {
+		d.onHeadPut(k.String(), isLocalPublish())
+	}
 	return d.Datastore.Put(k, v)
 }
 
@@ -122,10 +184,15 @@ type ctlBatch struct {
 	ds.Batch
 	d    *ctlDS
 	keys []string
+	puts []string
 }
 
 func (b *ctlBatch) Put(k ds.Key, v []byte) error {
+	if b.d.onBlock != nil && b.d.classify([]string{k.String()}) == clBlock {
+		b.d.onBlock(k.String(), v, isLocalPublish())
+	}
 	b.keys = append(b.keys, k.String())
+	b.puts = append(b.puts, k.String())
 	return b.Batch.Put(k, v)
 }
 func (b *ctlBatch) Delete(k ds.Key) error {
@@ -138,6 +205,12 @@ func (b *ctlBatch) Commit() error {
 		return err
 	}
 	defer b.d.after(cl)
+	if b.d.onHeadPut != nil && b.d.classify(b.keys) == clHeads {
+		local := isLocalPublish()
+		for _, k := range b.puts {
+			b.d.onHeadPut(k, local)
+		}
+	}
 	return b.Batch.Commit()
 }
 
@@ -159,20 +232,48 @@ func (d *ctlDS) closeGate() {
 	d.mu.Unlock()
 }
 
-func (d *ctlDS) openGate(arm wclass) {
+func (d *ctlDS) openGate(arm ...wclass) {
 	d.mu.Lock()
 	d.closed = false
-	if arm != clNone {
-		d.armed = arm
+	for _, a := range arm {
+		if a != clNone {
+			d.armedQ = append(d.armedQ, a)
+		}
 	}
 	d.cond.Broadcast()
 	d.mu.Unlock()
 }
 
-func (d *ctlDS) arm(cl wclass) {
+func (d *ctlDS) arm(cls ...wclass) {
 	d.mu.Lock()
-	d.armed = cl
+	for _, c := range cls {
+		if c != clNone {
+			d.armedQ = append(d.armedQ, c)
+		}
+	}
 	d.mu.Unlock()
+}
+
+// takeAttempts returns the publish attempts recorded since the last call: <taken><outcome>,...
+func (d *ctlDS) takeAttempts() []attempt {
+	d.mu.Lock()
+	defer d.mu.Unlock()
+	a := d.attempts
+	d.attempts = nil
+	return a
+}
+
+// attemptsCount: publish attempts started so far (only counted while nobody calls takeAttempts)
+func (d *ctlDS) attemptsCount() int {
+	d.mu.Lock()
+	defer d.mu.Unlock()
+	return len(d.attempts)
+}
+
+func (d *ctlDS) remoteHeadWrites() int {
+	d.mu.Lock()
+	defer d.mu.Unlock()
+	return d.remoteHeads
 }
 
 // waitBlocked waits until a writer is held at the gate.
